@@ -33,6 +33,7 @@ inductive NKind where
   | abort             -- abort_all
   | onec (c : Nat)    -- notify_one_relaxed(pred) with pred = (context == c): the FIRST matching node met by the scan
                       -- `for (n = my_waitset.last(); n != end; n = n->prev)` (newest waiter first), then `break`
+  | leq (k : Nat)     -- notify(pred) with pred = (context <= k): `predicate_leq(ticket)` of concurrent_bounded_queue.cpp
   deriving Repr, DecidableEq
 
 /-- does the notification's predicate match a waiter whose context is `x`?  (`notify(pred)`, `notify_all`, `abort_all`
@@ -45,6 +46,7 @@ def NKind.accepts : NKind → Nat → Bool
   | .abort, _ => true
   | .one, _ => false
   | .onec c, x => c == x
+  | .leq k, x => decide (x ≤ k)
 
 /-- one `monitor.wait(pred, node(ctx))` call; `pred` = user condition number `cond` is true -/
 structure WOp where
@@ -188,6 +190,7 @@ def scanPick (s : St) (k : NKind) : Option Nat :=
   match k with
   | .ctx c => s.waitset.reverse.find? (fun x => s.ctxOf x == c)
   | .onec c => s.waitset.reverse.find? (fun x => s.ctxOf x == c)
+  | .leq k => s.waitset.reverse.find? (fun x => decide (s.ctxOf x ≤ k))
   | .one => s.waitset.head?
   | _ => none
 
@@ -201,12 +204,14 @@ def afterEpoch (s : St) (k : NKind) : NPc :=
   | .ctx _ => if (scanPick s k).isSome then .scan else .unlock
   | .one => if (scanPick s k).isSome then .scan else .unlock
   | .onec _ => if (scanPick s k).isSome then .scan else .unlock
+  | .leq _ => if (scanPick s k).isSome then .scan else .unlock
 
 /-- after an in_list store: next node to mark (notify_all / abort_all), next node to dequeue (notify(pred)) or unlock -/
 def afterMark (s : St) (n : Notifier) : NPc :=
   match n.kind with
   | .all | .abort => if n.marked + 1 < n.temp.length then .mark else .unlock
   | .ctx _ => afterEpoch s n.kind
+  | .leq _ => afterEpoch s n.kind
   | .one => .unlock
   | .onec _ => .unlock      -- `break` after the first match
 
@@ -786,7 +791,8 @@ def splitOn1 (s : String) (c : Char) : List String := s.splitOn (String.singleto
 def parseKind (s : String) : Option NKind :=
   if s == "all" then some .all else if s == "one" then some .one else if s == "abort" then some .abort
   else if s.startsWith "c" then (s.drop 1).toString.toNat?.map NKind.ctx
-  else if s.startsWith "p" then (s.drop 1).toString.toNat?.map NKind.onec else none
+  else if s.startsWith "p" then (s.drop 1).toString.toNat?.map NKind.onec
+  else if s.startsWith "l" then (s.drop 1).toString.toNat?.map NKind.leq else none
 
 def parseWOp (w : String) : Option WOp :=
   match splitOn1 w ',' with
